@@ -12,6 +12,18 @@ def first_index(xs, x):
     return xs.index(x) if x in xs else -1
 
 
+@uninterp('(str) -> list[str]',
+          facts=["all(ln in s for ln in result)"],
+          note="the lines of a text AS A SOURCE FILE HAS THEM: broken at \\n, \\r\\n and \\r only (not at form feeds, vertical tabs, "
+               "FS/GS/RS, NEL, U+2028/9, which str.splitlines also breaks at); every line is a piece of the text; trusted: re.split")
+def source_lines(s):
+    import re as _re
+    lines = _re.split('\r\n|\r|\n', s)
+    if lines and lines[-1] == '':
+        lines.pop()
+    return lines
+
+
 from pyvc.specs_support import rec
 
 
